@@ -156,7 +156,8 @@ func (c *monC13) After(m *Machine, s *Step) *Violation {
 		newlyAuthed := r.SessAfter[authboss.Session2FAAuthed] == "true" && r.SessBefore[authboss.Session2FAAuthed] != "true"
 		if op.K == "evend" {
 			legit := c.issued[b] != "" && s.Secret == c.issued[b] && full && c.issuedFor[b] == uid
-			if legit && newlyAuthed {
+			if legit && r.SessAfter[authboss.Session2FAAuthed] == "true" {
+				// (the mark may already have been there, left by another account's verification)
 				c.authed[b], c.issued[b], c.authedAs[b] = true, "", uid
 				m.flag("email-authorised")
 			}
